@@ -1,5 +1,6 @@
 import json
 claimed = {
+ 'C13': ('exploration', 'Seeded search over whole runs steered towards sharing-producing simplifications (histories of accepted steps of length >= 2); invariant checked at every construction of a new round and around every reduplicate call: node identities pairwise distinct, tokens unchanged, unique nodes keep their identity.', '4 (C13)', 'whole-system deterministic simulation + state invariant at round boundaries'),
  'C10': ('exploration', 'Seeded search with command faults (hang, CPU spin, allocation blow-up, signal death, golden run exceeding the limit, match string absent) placed on pseudo-random candidates, on a simulated clock with simulated kernel limits; oracle: verdicts under the reference rule, kill-before-continue, no process left, no stall (deadlock detection), limits as documented, bounded simulated run time, status 1 before any candidate when the golden output lacks the match string.', '4 (C10)', 'deterministic simulation on a virtual clock with command-fault injection + deadlock detection'),
  'C04': ('exploration', 'Seeded search with fault injection over whole runs on well-formed, damaged and unbalanced inputs through both launchers: usage errors, injected mutator exceptions (buggify), OSError on candidate files, SIGINT and MemoryError at main yield points; oracle: nothing but SystemExit leaves the launcher, exit status 0 iff completion, one-line diagnostics, and with a failing mutator M the result still is a fixed point of all other enabled mutators.', '4 (C04)', 'deterministic simulation with fault injection (mutator exceptions, I/O errors, interrupts, usage errors) + exit-status and isolation oracles'),
  'C03': ('exploration', 'Seeded search over whole runs against adversarial (hash-sparse, non-monotone) command models with erasing mutators often disabled and inputs biased to the risky shapes; oracle: no adopted input is revisited, bounded number of adopted steps, and a deterministic per-step instruction budget (jump counter) that turns a non-terminating mutator step into a reproducible failure. Bounded liveness, by sampling.', '4 (C03)', 'whole-system deterministic simulation with adversarial peers + history oracle (no revisit) + deterministic hang budget'),
